@@ -7,8 +7,44 @@ FRAMINGS = [("cobs", "mpt_encode_cobs", "mpt_decode_cobs"), ("cobs_r", "mpt_enco
             ("zpe", "mpt_encode_cobs_zpe", "mpt_decode_cobs_zpe"), ("zpe_r", "mpt_encode_cobs_zpe_r", "mpt_decode_cobs_zpe_r")]
 
 
+def py_gen(q, wd):
+    """Regenerate the C translation of mpt.py:encode_cobs and validate it against the real Python function."""
+    import os, subprocess, sys, random
+    out = os.path.join(wd, "py_gen.c")
+    r = subprocess.run([sys.executable, os.path.join(VERIF, "engine", "py2c.py"), os.path.join(REPO, "mpt.py"), "encode_cobs", out],
+                       stdout=subprocess.PIPE, stderr=subprocess.STDOUT)
+    if r.returncode:
+        raise RuntimeError("py2c: " + r.stdout.decode())
+    defs = {"PY_GEN": '"%s"' % out}
+    # translator validation: generated C (gcc) vs. the real Python function on concrete messages
+    exe = os.path.join(wd, "py_val.exe")
+    cc = subprocess.run(["gcc", "-w", "-DVERIF_REPLAY", "-DPY_VALIDATE", "-DPREFIX=600", "-DT=8", '-DPY_GEN="%s"' % out, "-I", os.path.join(VERIF, "include"),
+                         "-o", exe, os.path.join(VERIF, "harness", "C01", "python.c")], stdout=subprocess.PIPE, stderr=subprocess.STDOUT)
+    if cc.returncode:
+        raise RuntimeError("py2c validation build failed: " + cc.stdout.decode()[-500:])
+    import importlib.util
+    spec = importlib.util.spec_from_file_location("mpt_client", os.path.join(REPO, "mpt.py"))
+    mod = importlib.util.module_from_spec(spec)
+    try:
+        spec.loader.exec_module(mod)
+    except SystemExit:
+        pass
+    rnd = random.Random(1)
+    msgs = [bytes(), bytes([0]), bytes([1]), bytes([0, 0]), bytes([5, 0, 7])] + [bytes([1 + (i % 250) for i in range(n)]) for n in (252, 253, 254, 255, 256, 508, 509)]
+    msgs += [bytes(rnd.choice([0, 1, 2, 255]) for _ in range(rnd.randint(0, 40))) for _ in range(40)]
+    for m in msgs:
+        try:
+            want = bytes(mod.encode_cobs(bytearray(m))).hex()
+        except Exception as e:   # IndexError etc. in the Python original
+            want = "FAULT"
+        got = subprocess.run([exe, m.hex()], stdout=subprocess.PIPE).stdout.decode().strip()
+        if got != want:
+            raise RuntimeError("py2c translation disagrees with mpt.py on message %s: C %s, Python %s" % (m.hex()[:40], got[:60], want[:60]))
+    return defs
+
+
 def queries(tier):
-    n = 4 if tier == "quick" else 6
+    n = 4 if tier == "quick" else 5
     qs = []
     for (nm, enc, dec) in FRAMINGS:
         qs.append(Q("roundtrip_" + nm, "C01/roundtrip.c", units=CODEC,
@@ -16,4 +52,9 @@ def queries(tier):
                     unwind_default=n + 4, unwind={"push": 3, "harness": 2 * n + 12},
                     bounds="message 0..%d bytes, every byte value; 2 pushes (thorough: 3) at all split points; initial capacity 0..%d symbolic then full" % (n, 2 * n + 6),
                     outside="messages longer than %d bytes in this shape (block boundaries at 254/223: step harness)" % n))
+    for pre in ((0, 254) if tier == "quick" else (0, 254, 255, 258)):
+        qs.append(Q("python_encode_cobs_pre%d" % pre, "C01/python.c", units=[], harness_defines={"PREFIX": pre, "T": 4},
+                    unwind_default=pre + 20, unwind={"ref_decode.0": 12 + max(0, pre - 254), "ref_decode.1": 3, "ref_decode.2": 10 + max(0, pre - 254), "py_encode_cobs": 2, "py_encode_cobs.4": pre + 6}, cxx=py_gen, stubs=[], flags=["--max-field-sensitivity-array-size", "300"],
+                    bounds="mpt.py encode_cobs (AST translated per run, validated against the Python original on 52 concrete messages): %d concrete non-zero bytes + 0..4 symbolic bytes; decoded with the reference decoder" % pre,
+                    outside="other prefix lengths; str inputs (utf-8 conversion); encode_command", timeout=600))
     return qs
